@@ -306,6 +306,7 @@ impl Drv {
     }
 
     pub fn from_line(cfg_line: String, rx: usize, mut rng: Rng) -> Drv {
+        crate::hang::begin_program();
         let it = Interp::new(&cfg_line).ok();
         let srng = Rng(rng.next() | 1);
         Drv {
